@@ -5,7 +5,13 @@ package txstore
 //  (b) raw / malformed API streams (model must still agree with the code),
 //  (c) C02 pairs: a history with reorg cycles vs the direct construction of its final facts,
 //  (d) scripted shapes (credit+spender in one block, coinbase spend chains, confirmed double spend against a
-//      pool chain, zero-value credit, lease boundaries).
+//      pool chain, zero-value credit, lease boundaries),
+//  (e) histories of (a) with injected events no validating node emits (simOpts.wild), and the thorough tier's
+//      small-scope enumeration, part of which is outside the properties' quantifier as well.
+//
+// Whether the property oracles apply to a history is NOT decided here: the runner tracks chain consistency of the
+// delivered events itself (runner.cons / runner.strict, oracle.go: ledger.consistent / ledger.extra) and the Lean
+// driver does the same with Ledger.consistent / Ledger.extra; both answers are part of the compared replies.
 
 import (
 	"crypto/sha256"
@@ -66,7 +72,9 @@ func randHash(rng *rand.Rand) chainhash.Hash {
 	return h
 }
 
-func genUniverse(rng *rand.Rand, n int) *universe {
+// wild: a few inputs name a universe transaction but none of its outputs (no validating node relays such a
+// transaction; the consistent simulator never delivers it, only actInject does).
+func genUniverse(rng *rand.Rand, n int, wild bool) *universe {
 	u := &universe{byHash: map[chainhash.Hash]*uTx{}}
 	type outRef struct {
 		op     wire.OutPoint
@@ -97,6 +105,9 @@ func genUniverse(rng *rand.Rand, n int) *universe {
 					o := cand[rng.Intn(len(cand))]
 					o.chosen = true
 					op = o.op
+					if wild && rng.Intn(100) < 6 {
+						op.Index += 7
+					}
 				} else {
 					op = wire.OutPoint{Hash: randHash(rng), Index: uint32(rng.Intn(3))}
 				}
@@ -173,6 +184,11 @@ type simOpts struct {
 	subSecond  bool
 	probeEvery bool
 	heavy      bool // thorough: query every tx / more ranges / dump each step
+	// wild: now and then an event no validating node emits is injected (actInject).  From then on the history is
+	// outside the quantifier of C01/C02/C12/C13; the RUNNER's tracker (ledger.consistent / ledger.extra, compared
+	// with the Lean driver's through the cons=/strict= reply fields) notices and silences the property oracles, the
+	// Go<->Lean correspondence keeps being checked on every op.
+	wild bool
 }
 
 func (s *sim) emit(format string, a ...interface{}) { s.ops = append(s.ops, fmt.Sprintf(format, a...)) }
@@ -509,6 +525,58 @@ func (s *sim) actDuplicate() bool {
 	return true
 }
 
+// actInject delivers an event chosen WITHOUT asking whether a validating node could emit it: the unconfirmed or
+// confirmed (in the tip block) delivery of an arbitrary universe transaction, or the removal of one.  Typical
+// results: an unconfirmed transaction that conflicts with a confirmed one, a child before its parent, a confirmed
+// double spend, an input naming a missing output, the removal of a mined transaction.
+func (s *sim) actInject() {
+	t := s.u.txs[s.rng.Intn(len(s.u.txs))]
+	s.tags["injected"] = true
+	// half of the time aim at the events that pass every chain-shape test (one block per height, parents first, no
+	// confirmed double spend ...) and are still impossible: the mempool acceptance of a transaction that conflicts
+	// with the chain, or of one whose input names a missing output of a known transaction
+	if s.rng.Intn(2) == 0 {
+		var cands []*uTx
+		for _, c := range s.u.txs {
+			if c.coinbase() || s.led.find(c.hash) != nil {
+				continue
+			}
+			badRef := false
+			for _, in := range c.ins {
+				if p := s.led.find(in.Hash); p != nil && int(in.Index) >= len(p.tx.outs) {
+					badRef = true
+				}
+			}
+			if badRef || !s.unspentByChain(c) {
+				cands = append(cands, c)
+			}
+		}
+		if len(cands) > 0 {
+			t = cands[s.rng.Intn(len(cands))]
+			s.tags["injected-chain-conflict"] = true
+			s.seen(t)
+			s.mempool = append(s.mempool, t)
+			return
+		}
+	}
+	switch k := s.rng.Intn(100); {
+	case k < 50 || len(s.chain) == 0:
+		s.seen(t)
+		if !s.inMempool(t) && s.confirmedIn(t) == nil {
+			s.mempool = append(s.mempool, t)
+		}
+	case k < 85:
+		b := s.chain[len(s.chain)-1]
+		if s.confirmedIn(t) == nil {
+			b.txs = append(b.txs, t)
+		}
+		s.conf(t, b)
+	default:
+		s.emit("removeunmined %s", t.tid)
+		s.apply(event{kind: "abandon", tx: t.txDef})
+	}
+}
+
 func (s *sim) setClock(t int64) {
 	if t < 0 {
 		t = 0
@@ -668,7 +736,7 @@ func (s *sim) probes() {
 }
 
 func newSim(rng *rand.Rand, nTx int, mat int64, opts simOpts) *sim {
-	s := &sim{rng: rng, u: genUniverse(rng, nTx), mat: mat, led: newLedger(), opts: opts, tags: map[string]bool{}}
+	s := &sim{rng: rng, u: genUniverse(rng, nTx, opts.wild), mat: mat, led: newLedger(), opts: opts, tags: map[string]bool{}}
 	s.emit("reset mat=%d", mat)
 	for _, t := range s.u.txs {
 		s.emit("%s", t.defLine())
@@ -685,6 +753,11 @@ func newSim(rng *rand.Rand, nTx int, mat int64, opts simOpts) *sim {
 
 func (s *sim) run(steps int) {
 	for i := 0; i < steps; i++ {
+		if s.opts.wild && s.rng.Intn(100) < 12 {
+			s.actInject()
+			s.probes()
+			continue
+		}
 		k := s.rng.Intn(100)
 		switch {
 		case k < 26:
@@ -934,6 +1007,17 @@ func generate(rng *rand.Rand, tier string) []core.Case {
 	for i := 0; i < nFuzz; i++ {
 		cases = append(cases, core.Case{Ops: []string{fmt.Sprintf("reffuzz %d %d %d 1", rng.Intn(1<<30), perCase, 30+rng.Intn(50))},
 			Tags: []string{"reffuzz"}})
+	}
+	// consistent histories with injected events that no validating node emits (see simOpts.wild); generated last so that
+	// the cases above are the same as before for a given seed
+	nWild := 60
+	if tier == "thorough" {
+		nWild = 300
+	}
+	for i := 0; i < nWild; i++ {
+		s := newSim(rng, 4+rng.Intn(20), int64(2+rng.Intn(3)), simOpts{leases: i%2 == 0, wild: true})
+		s.run(8 + rng.Intn(25))
+		cases = append(cases, s.caseOf("history+injected"))
 	}
 	return cases
 }
